@@ -242,7 +242,11 @@ func shrinkRec(c *Case, try func(*Case) bool) bool {
 	}
 	switch r := c.Rec; {
 	case r.Fasta != nil:
-		attempt(func(r *WriteRec) bool { ok := len(r.Fasta.Sequence) > 0; r.Fasta.Sequence = r.Fasta.Sequence[:len(r.Fasta.Sequence)/2]; return ok })
+		attempt(func(r *WriteRec) bool {
+			ok := len(r.Fasta.Sequence) > 0
+			r.Fasta.Sequence = r.Fasta.Sequence[:len(r.Fasta.Sequence)/2]
+			return ok
+		})
 		attempt(func(r *WriteRec) bool { ok := len(r.Fasta.Name) > 0; r.Fasta.Name = nil; return ok })
 	case r.Fastq != nil:
 		attempt(func(r *WriteRec) bool {
